@@ -7,7 +7,7 @@ from ..engine import rule
 from ..flow import PRUNE, Violation, explore, path_ends, path_is, prov_has, \
     provenance
 from ..model import dotted, walk_local
-from ..twopc import DS
+from ..twopc import DS, MS
 
 BASE_ALLOWED = {'loadBefore', 'loadSerial', 'loadBlob',
                 'openCommittedBlobFile', 'getTid', 'history', 'iterator',
@@ -72,6 +72,7 @@ def r2(R):
     cls = R.prog.cls(DS)
     for meth in TWO_PC + ('store', 'storeBlob'):
         f = R.method(cls, meth)
+        f_params = list(f.params)
         g, b, F = R.cfg(f, cls, max_depth=0)
         R.instance('DemoStorage.%s' % meth)
 
@@ -151,12 +152,13 @@ def r3(R):
 
 
 @rule('C16.R5', 'loadBefore asks the base only after the changes storage '
-      'had no answer', props=['C04'], min_instances=1)
+      'had no answer', props=['C04', 'C15'], min_instances=1)
 def r5(R):
     cls = R.prog.cls(DS)
     for meth in ('loadBefore', 'loadSerial', 'getTid', 'loadBlob',
                  'openCommittedBlobFile'):
         f = R.method(cls, meth)
+        f_params = list(f.params)
         g, b, F = R.cfg(f, cls, max_depth=0)
         R.instance('DemoStorage.%s' % meth)
 
@@ -167,7 +169,7 @@ def r5(R):
                     return 'miss' if lab == 'e' else 'asked'
             return st
 
-        def at(node, st, F=F, meth=meth):
+        def at(node, st, F=F, meth=meth, f_params=f_params):
             for op in F.ops(node):
                 if op.kind == 'call' and op.path and op.path[:2] == (
                         'self', 'base') and st == 'none':
@@ -175,6 +177,25 @@ def r5(R):
                         'DemoStorage.%s asks the base storage before the '
                         'changes storage: a newer revision in the changes '
                         'layer is shadowed by the base' % meth)
+                # the base is asked the caller's question: same oid, same
+                # bound / serial (not a wider one)
+                if op.kind == 'call' and path_is(
+                        op.path, ('self', 'base', meth)) and \
+                        node.frame.parent is None:
+                    want = [p_ for p_ in f_params if p_ != 'self']
+                    for i, a_ in enumerate(op.ast.args[:len(want)]):
+                        pv = provenance(a_, node.frame, F)
+                        srcs = {v for k, v in pv if k == 'param'}
+                        other = {v for k, v in pv if k in ('path', 'call')}
+                        if srcs != {want[i]} or other or not isinstance(
+                                a_, ast.Name):
+                            return Violation(
+                                'DemoStorage.%s asks the base with `%s` '
+                                'where the caller asked with `%s`: the '
+                                'answer is for another question (for '
+                                'loadBefore: a revision later than the '
+                                'requested point)' % (
+                                    meth, ast.unparse(a_), want[i]))
             return st
 
         vs, stats = explore(g, 'none', at=at, edge=edge)
@@ -256,3 +277,56 @@ def r7(R):
                     'changes layer the base revision\'s interval overlaps '
                     'them, and snapshots in between see two current '
                     'revisions')
+
+
+# ------------------------------------------------------------------ C16.R8
+@rule('C16.R8', 'a storage that can be a layer of a demo storage answers '
+      '"not here" with POSKeyError, never with a bare KeyError: the demo '
+      'storage falls back to the other layer on POSKeyError only',
+      props=['C10', 'C04'], min_instances=3)
+def r8(R):
+    """Error discipline of MappingStorage's read API (the default changes
+    layer): a subscript with a caller-supplied key (oid, serial, tid) can
+    raise KeyError, so it must sit in a `try` that catches KeyError, or be
+    guarded by `.get()` / a membership test on the same container."""
+    cls = R.prog.cls(MS)
+    n = 0
+    for name in ('load', 'loadBefore', 'loadSerial', 'getTid', 'history',
+                 'loadBlob', 'openCommittedBlobFile'):
+        f = cls.methods.get(name)
+        if f is None:
+            continue
+        n += 1
+        R.instance('MappingStorage.%s' % name)
+        params = set(f.params) - {'self'}
+        tries = [t for t in walk_local(f.node) if isinstance(t, ast.Try)
+                 and any(h.type is None or any(
+                     isinstance(x, ast.Name) and x.id in (
+                         'KeyError', 'Exception', 'LookupError',
+                         'BaseException')
+                     for x in ast.walk(h.type)) for h in t.handlers)]
+        protected = {id(x) for t in tries for s_ in t.body
+                     for x in ast.walk(s_)}
+        for x in walk_local(f.node):
+            if isinstance(x, ast.Subscript) and isinstance(
+                    x.ctx, ast.Load) and isinstance(x.slice, ast.Name) and \
+                    x.slice.id in params and id(x) not in protected:
+                # reassigned parameter (tid = tids_before[-1]) is a key
+                # taken from the container itself
+                if any(isinstance(a, ast.Assign) and any(
+                        isinstance(t, ast.Name) and t.id == x.slice.id
+                        for t in a.targets) for a in walk_local(f.node)):
+                    continue
+                R.violation(
+                    (f.module.relpath, f.qualname,
+                     ' '.join(ast.unparse(x).split()), x.lineno),
+                    'MappingStorage.%s looks `%s` up with a plain subscript '
+                    'outside any `try ... except KeyError`: for a key that '
+                    'is not there it raises KeyError instead of '
+                    'POSKeyError, and a demo storage using this storage as '
+                    'its changes layer does not fall back to the base '
+                    '(reads, conflict resolution and readCurrent checks of '
+                    'objects that live in the base fail)' % (
+                        name, ast.unparse(x)),
+                    key='caller-supplied key looked up unguarded')
+    R.require(n >= 3, 'MappingStorage read API not found')
